@@ -43,6 +43,29 @@ def run(ctx):
             continue   # the key → parse dispatch of override_value has no set_* calls
         n += 1
         groups.setdefault(t, []).append((kind, o))
+    if n == 0:
+        # one shared copy instead of three generated ones: `Config::refresh_dependent_options(key)` called by every setter
+        helpers = []
+        for rec in p.hir["hir_litmatch"]:
+            o = rec["owner"]
+            if "::config::" in o and any(row[1] for row in side_effect_table(rec)):
+                helpers.append((o, side_effect_table(rec)))
+        if len(helpers) == 1:
+            hid, t = helpers[0]
+            need = [f for f in p.by_crate["rustfmt_nightly"] if f.kind != "Closure" and (
+                "::ConfigSetter::<'a>::" in f.id or "::CliConfigSetter::<'a>::" in f.id or f.id.endswith("config::Config::override_value"))]
+            miss = [f for f in need if not any((c.resolved or c.name) == hid for c in f.calls())]
+            kinds_seen = {"ConfigSetter" if "::ConfigSetter::" in f.id else "CliConfigSetter" if "::CliConfigSetter::" in f.id else "override_value"
+                          for f in need if f not in miss}
+            for f in need:
+                if f not in miss:
+                    n += 1
+                    groups.setdefault(t, []).append(("ConfigSetter" if "::ConfigSetter::" in f.id else "CliConfigSetter"
+                                                     if "::CliConfigSetter::" in f.id else "override_value", f.id))
+            for f in miss[:3]:
+                r.violation(A, "%s does not apply the option side effects" % short(f.id),
+                            "the shared side-effect helper %s is not called by this setter: the same option value has another effect "
+                            "when it comes through it" % short(hid), ["%s:%d" % (f.file, f.line)])
     r.floor(A, n, 170, "generated side-effect matches (2 per option + override_value)")
     kinds = {k for v in groups.values() for (k, o) in v}
     if len(groups) == 1 and kinds == {"ConfigSetter", "CliConfigSetter", "override_value"}:
